@@ -1338,7 +1338,17 @@ func oracle(c core.Case, out []string) []core.Finding {
 			e.blks[b.id] = b
 			byHash[b.hashID] = append(byHash[b.hashID], b)
 		case "new", "verify", "update", "vheader", "cleanup":
-			res, st, ev, _, _, ok := parseStore(out[i])
+			res, st, ev, witsNow, primNow, ok := parseStore(out[i])
+			// a provider must never be primary and witness at once after a call that succeeded
+			if ok && strings.HasPrefix(out[i], "ok") && (f[0] == "new" || f[0] == "verify" || f[0] == "update" || f[0] == "vheader") {
+				for _, w := range witsNow {
+					if w == primNow {
+						fs = append(fs, core.Finding{Fingerprint: "light.findNewPrimary.primary-remains-witness",
+							Desc: fmt.Sprintf("op %d (%s): provider %d is the primary and at the same time in the witness list %v", i, op, primNow, witsNow)})
+						break
+					}
+				}
+			}
 			if f[0] == "cleanup" {
 				if ok && len(st) > 0 {
 					fs = append(fs, core.Finding{Fingerprint: "light.Cleanup.leaves-blocks", Desc: fmt.Sprintf("Cleanup left %v in the trusted store", st)})
@@ -1379,6 +1389,16 @@ func oracle(c core.Case, out []string) []core.Finding {
 					if isNew && s.hash != want {
 						fs = append(fs, core.Finding{Fingerprint: "light.NewClient.stores-header-other-than-trust-root",
 							Desc: fmt.Sprintf("op %d: the constructor stored %d:%d but the trust options name hash id %d (store before: %v)", i, s.h, s.hash, want, prev)})
+					}
+				}
+				// a client started with trust options (h, hash) must not trust another header at height h
+				if withOpts && strings.HasPrefix(out[i], "ok ") {
+					hOpt, _ := intOf(m, "h")
+					for _, s := range st {
+						if s.h == hOpt && s.hash != want {
+							fs = append(fs, core.Finding{Fingerprint: "light.NewClient.keeps-store-conflicting-with-trust-options",
+								Desc: fmt.Sprintf("op %d: NewClient with trust options (height %d, hash id %d) returned a client whose store holds %d:%d (store before: %v)", i, hOpt, want, s.h, s.hash, prev)})
+						}
 					}
 				}
 				prev = st
@@ -1455,14 +1475,21 @@ func oracle(c core.Case, out []string) []core.Finding {
 				if len(prev) > 0 && s.h < prev[0].h {
 					continue // backwards verification does not consult witnesses
 				}
-				confirmed := false
+				confirmed, byOther := false, false
 				for _, r := range replies {
 					if r.op == i && r.compare && r.blk != nil && r.blk.hashID == s.hash {
 						confirmed = true
+						if r.prov != primNow {
+							byOther = true
+						}
 					}
 				}
 				if confirmed {
 					ocount("acceptance-with-identical-witness-header")
+				}
+				if okLog && confirmed && !byOther {
+					fs = append(fs, core.Finding{Fingerprint: "light.detectDivergence.self-confirmation",
+						Desc: fmt.Sprintf("op %d (%s): header %d:%d became trusted on the word of provider %d alone, which is the primary: the only witness that returned the identical header is the primary itself", i, op, s.h, s.hash, primNow)})
 				}
 				if okLog && !confirmed {
 					fs = append(fs, core.Finding{Fingerprint: "light.detectDivergence.confirms-without-identical-witness-header",
